@@ -74,6 +74,65 @@ const HOSTILE: &[(&str, &str)] = &[
     ("dup-knot-and-var-names", "VAR k = 1\nLIST l = k, j\n-> k\n=== k ===\n{k}\n-> END\n=== j ===\n-> END\n"),
 ];
 
+fn compile_outcome(text: &str) -> String {
+    match guarded(|| Compiler::new().compile(text)) {
+        Ok(Ok(j)) => format!("ok:{:x}", crate::report::hash_str(&j)),
+        Ok(Err(e)) => format!("err:{e}"),
+        Err(p) => format!("panic:{}", panic_class(&p)),
+    }
+}
+
+/// Hidden state between compilations: every canary text is compiled (a) in a brand-new thread and
+/// (b) in a thread that has just compiled a long list of refused and accepted texts (three times
+/// over). The two outcomes must be identical. Canaries include, per nested construct, the deepest
+/// nesting the compiler accepts (found by an ascending search in a thread of its own), because a
+/// budget that leaks on refusals shows there first.
+fn stateful_compile_check(stats: &mut Stats) -> Vec<(String, String)> {
+    let nest = |open: &str, mid: &str, close: &str, n: usize| format!("~ x = 1\n{}{mid}{}\n", open.repeat(n), close.repeat(n));
+    let shapes: Vec<(&str, &str, &str, &str)> = vec![("parens", "{", "1", "}"), ("brace-cond", "{true:", "x", "}"), ("seq", "{a|", "b", "}")];
+    let mut canaries: Vec<(String, String)> = vec![
+        ("plain".into(), "VAR x = 0\nHello.\n* a\n    A {x}.\n* b\n    B.\n- end\n-> END\n".into()),
+        ("knots".into(), "-> k\n=== k ===\nK {k}.\n+ [again] -> k\n* [stop] -> END\n".into()),
+    ];
+    let mut disturbers: Vec<String> = HOSTILE.iter().map(|(_, t)| t.to_string()).collect();
+    for (name, open, mid, close) in &shapes {
+        let (open, mid, close) = (open.to_string(), mid.to_string(), close.to_string());
+        let text = move |n: usize| if open == "{" { format!("~ x = {}{mid}{}\n", "(".repeat(n), ")".repeat(n)) } else { nest(&open, &mid, &close, n) };
+        let t2 = text.clone();
+        // ascending search in its own thread: the first refusal ends it
+        let deepest = std::thread::spawn(move || (1..400usize).take_while(|n| compile_outcome(&t2(*n)).starts_with("ok")).last()).join().ok().flatten();
+        if let Some(n) = deepest {
+            canaries.push((format!("deepest-{name}-{n}"), text(n)));
+            disturbers.push(text(n + 1));
+            disturbers.push(text(n + 40));
+        }
+        disturbers.push(text(1000));
+    }
+    let cs = canaries.clone();
+    let ds = disturbers.clone();
+    let used: Vec<String> = std::thread::spawn(move || {
+        for _ in 0..3 {
+            for d in &ds {
+                let _ = compile_outcome(d);
+            }
+        }
+        cs.iter().map(|(_, t)| compile_outcome(t)).collect()
+    })
+    .join()
+    .unwrap_or_default();
+    let mut out = vec![];
+    for (i, (name, text)) in canaries.iter().enumerate() {
+        let t = text.clone();
+        let fresh = std::thread::spawn(move || compile_outcome(&t)).join().unwrap_or_else(|_| "thread-died".into());
+        stats.inc("stateful_compile_canaries");
+        if used.get(i) != Some(&fresh) {
+            out.push((name.clone(), format!("the same text compiles differently depending on what the compiler did before: in a fresh thread {:?}, after {} other compilations in the same thread {:?}", fresh.chars().take(120).collect::<String>(), disturbers.len() * 3, used.get(i).map(|s| s.chars().take(120).collect::<String>()))));
+        }
+    }
+    stats.add("stateful_compile_disturbers", disturbers.len() as u64);
+    out
+}
+
 fn deep_inputs() -> Vec<(String, String)> {
     let mut v = vec![];
     for depth in [50usize, 500, 5000, 50000] {
@@ -378,6 +437,15 @@ pub fn run(tier: Tier) -> i32 {
     for i in &res.hangs {
         let (fam, ..) = sp.nth(*i);
         stats.violation(mk(*i, format!("hang/{fam}"), "no answer within the 10 s per-input cap".into()));
+    }
+    // the compiler is a function of its input: what it did before must not matter
+    for (canary, what) in stateful_compile_check(&mut stats) {
+        stats.violation(Violation {
+            property: ID.into(),
+            class: format!("{ID}/stateful-compile/{canary}"),
+            what,
+            artefact: json!({"check": "c06", "mode": "stateful-compile", "canary": canary}),
+        });
     }
     let (f0, d0, t0, _) = sp.nth(0);
     stats.sample(json!({"family": f0, "desc": d0, "input": t0}));
